@@ -12,13 +12,16 @@ import (
 )
 
 var (
+	// A HashFunc created by the hash package keeps a hasher and a buffer and is not safe for concurrent use.
+	// HashState and HashSymbol create one for every call, so that they can be used from different goroutines.
+
 	EqState   = generic.NewEqualFunc[State]()
 	CmpState  = generic.NewCompareFunc[State]()
-	HashState = hash.HashFuncForInt[State](nil)
+	HashState = func(s State) uint64 { return hash.HashFuncForInt[State](nil)(s) }
 
 	EqSymbol   = generic.NewEqualFunc[Symbol]()
 	CmpSymbol  = generic.NewCompareFunc[Symbol]()
-	HashSymbol = hash.HashFuncForInt32[Symbol](nil)
+	HashSymbol = func(a Symbol) uint64 { return hash.HashFuncForInt32[Symbol](nil)(a) }
 
 	eqStateSet = func(a, b States) bool {
 		return a.Equal(b)
